@@ -84,8 +84,11 @@ Definition strict_step (w : wrap) (h : hop) : wrap :=
   | HFlush => w
   end.
 
+(* statusCode(): the status the handler set, or 200 if it set none *)
+Definition w_code (w : wrap) : Z := if w_hw w then w_status w else 200%Z.
+
 Definition strict_flush (w : wrap) : client :=
-  cl_write (cl_write_header (w_cl w) (w_status w)) (w_body w).
+  cl_write (cl_write_header (w_cl w) (w_code w)) (w_body w).
 
 (* ---- Validator.Middleware ---- *)
 Inductive errcode := ECNotFound | ECBadRequest | ECRespInvalid.
@@ -117,13 +120,13 @@ Section MW.
     else
       let w := fold_left (if strict then strict_step else warn_step) hs (wrap0 client0) in
       if c_panic (w_cl w) then mkOut (w_cl w) true [] [] 0 "" else
-      if negb (resp_ok (w_status w) (w_body w)) then
+      if negb (resp_ok (w_code w) (w_body w)) then
         if strict then
           mkOut (cl_run (w_cl w) (ef 500 ECRespInvalid)) true [(500%Z, ECRespInvalid)] [LResponse]
-                (w_status w) (w_body w)
-        else mkOut (w_cl w) true [] [LResponse] (w_status w) (w_body w)
+                (w_code w) (w_body w)
+        else mkOut (w_cl w) true [] [LResponse] (w_code w) (w_body w)
       else
-        mkOut (if strict then strict_flush w else w_cl w) true [] [] (w_status w) (w_body w).
+        mkOut (if strict then strict_flush w else w_cl w) true [] [] (w_code w) (w_body w).
 End MW.
 
 (* the default error callback: http.Error(w, text, status) *)
